@@ -201,11 +201,9 @@ def dispatch_table():
 def main():
     req = json.load(sys.stdin)
     if req.get("dispatch"):
-        print(json.dumps({"results": guarded(dispatch_table), "shim": SHIM_MODE}))
+        print(json.dumps({"results": guarded(dispatch_table), "shim": SHIM_MODE}, default=__import__("_util").jdefault))
         return
     res = [do_case(c) for c in req["cases"]]
-    print(json.dumps({"results": res, "shim": SHIM_MODE}))
-
-
+    print(json.dumps({"results": res, "shim": SHIM_MODE}, default=__import__("_util").jdefault))
 if __name__ == "__main__":
     main()
